@@ -92,30 +92,36 @@ package protocol
 // DHCP and LLDP decoders (named Write in this package: they consume bytes into the receiver)
 
 //@ func (*DHCP).Write(d, b) (n, err) [C08 C12]
+//@   allocbound max(4096, len(b))
 //@   modifies *d
 //@   own noalias
 
 //@ func DHCPParseOptions(in) (opts, err) [C08]
+//@   allocbound max(4096, len(in))
 //@   loop 1:
 //@     invariant 0 <= pos && pos <= len(in)
 //@     decreases len(in) - pos
 
 //@ func (*ChassisTLV).Write(t, b) (n, err) [C08 C12]
+//@   allocbound max(4096, len(b))
 //@   modifies *t
 //@   own noalias
 //@   ensures 0 <= n && n <= len(b)
 
 //@ func (*PortTLV).Write(t, b) (n, err) [C08 C12]
+//@   allocbound max(4096, len(b))
 //@   modifies *t
 //@   own noalias
 //@   ensures 0 <= n && n <= len(b)
 
 //@ func (*TTLTLV).Write(t, b) (n, err) [C08 C12]
+//@   allocbound max(4096, len(b))
 //@   modifies *t
 //@   own noalias
 //@   ensures 0 <= n && n <= len(b)
 
 //@ func (*LLDP).Write(d, b) (n, err) [C08 C12]
+//@   allocbound max(4096, len(b))
 //@   modifies *d
 //@   own noalias
 //@   ensures 0 <= n && n <= len(b)
